@@ -86,6 +86,15 @@ COMPOSED = {
  "C18": ", plus a sweep of every scalar function of the SQL front-end over column kinds and constants",
 }
 
+SCOPE = {
+ "C01": " Not decided: programs in which a join sits over an aggregating sub-query (the sub-query is released by its own mechanism); the aggregation decided is the one at the top of the program.",
+ "C09": " Not decided: programs in which a join sits over an aggregating sub-query (the sub-query is released by its own mechanism); the aggregation decided is the one at the top of the program.",
+ "C05": " The row equality is not decided for a rewriting that embeds a differentially private release (its cells are releases, governed by C01-C04); the null-unit / foreign-unit clauses are. Units that appear in the result but own nothing are enumerated too.",
+ "C11": " The own-type law is decided both with the reference membership and with the library's own contains.",
+ "C03": " The Gaussians of the per-DISTINCT-column splits of one aggregation are summed against its budget; with several aggregations each is checked on its own.",
+ "C06": " List-typed operands are explored for IN only.",
+}
+
 def main():
     props = [json.loads(l) for l in open('/verif/properties.jsonl')]
     checks = []
@@ -97,6 +106,7 @@ def main():
             if pid in COMPOSED:
                 c['technique'] += "; the program space is the hand-written E-sql list plus every constructor term (projection / aggregation / DISTINCT / ORDER-LIMIT / join / set operation / shared CTE) of nesting depth <= 2 (thorough 3) over lean alphabets (harness/src/sqlgen2.rs)" + COMPOSED[pid]
                 c['note'] += " Known findings are matched per case or, for the composed terms, per root-cause class (kind @structural feature of the relation, harness/src/features.rs)."
+            c['note'] += SCOPE.get(pid, "")
             checks.append({
                 "property_id": pid,
                 "quick_cmd": f"./check {pid} quick",
